@@ -167,6 +167,18 @@ CHECKS = {
         note="That scipy's interpolants reproduce power laws on the extrapolated grid is library numerics (outside; used only in replays). "
              "Known finding: 'hermite' cannot be constructed (known_findings.json).",
         design="3/C11"),
+    "C16": dict(
+        engine="crosshair + z3",
+        technique="CrossHair symbolic execution of the real update_config / apply_default_config on generated skeleton pairs with symbolic "
+                  "integer leaves (reachability twins); packaged JSON schema compiled to an SMT predicate and compared by z3 with the "
+                  "documented constraints in both directions; solver witnesses replayed through the real validate_config",
+        text="Merge: per skeleton pair 'Confirmed over all paths' for: result == oracle merge, every user leaf survives, default-only "
+             "leaves taken, key set = union, inputs unmodified, idempotent, insertion-order independent (all leaf values). Validation: per "
+             "documented field the schema neither rejects a documented-valid nor accepts a documented-invalid value (all JSON kinds, all "
+             "numbers); required sections, closed objects, shipped files, YAML=JSON loading.",
+        note="Skeleton family is bounded (depth<=3, seeded); dict-vs-leaf clashes excluded. The schema compiler covers the keyword subset "
+             "the packaged schema uses and is cross-validated against jsonschema on every solver witness.",
+        design="3/C16"),
 }
 
 NOT_APPLICABLE = {
